@@ -556,6 +556,7 @@ func ParseDSL(data string) (*OpenFgaDslListener, *OpenFgaDslErrorListener) {
 
 	listener := newOpenFgaDslListener()
 	antlr.ParseTreeWalkerDefault.Walk(listener, fgaParser.Main())
+	verifObserveTokens(stream)
 
 	return listener, errorListener
 }
